@@ -66,6 +66,17 @@ def stripe_tap_mismatch(b0, b1, p0, p1, st, en, s, k, d, lo, hi, top, r0, rmode=
     return None
 
 
+def expected_ifm_channels(dot, ofm_c0, ofm_c1, woff_c, roff_c, rdepth, ifm_depth):
+    """the IFM channels an operator needs for OFM channels [ofm_c0, ofm_c1): an operator that sums over the IFM depth
+    (convolution, fully connected, reduce-sum) needs ALL channels of what it reads -- the read window [roff, roff+rdepth) of a
+    folded split/slice, else the whole tensor -- for every depth slice; a channel-wise operator needs the channels of the
+    slice, moved from the write window to the read window"""
+    if dot:
+        return (roff_c, roff_c + rdepth) if rdepth is not None else (0, ifm_depth)
+    off = roff_c if rdepth is not None else 0
+    return (ofm_c0 - woff_c + off, min(ofm_c1 - woff_c + off, ifm_depth))
+
+
 def out_size(H, kd, s, pad, before=0, after=0):
     if pad == "SAME":
         return -(-H // s)
@@ -398,6 +409,22 @@ def c10_corpus_jobs():
         sha = hashlib.sha256(open(path, "rb").read()).hexdigest()[:16]
         args = [compiles.CONFIG_INI if a == "@CONFIG_INI@" else a for a in d["args"]]
         jobs.append({"tflite": path, "sha": sha, "args": args, "capture": True, "family": "corpus", "seed": "c10/" + os.path.basename(f)})
+    return jobs
+
+
+def split_conv_jobs(tier):
+    """input -> SPLIT in two (depth or width) -> conv3x3 per part (netgen family split_conv): the split is folded into the
+    convolutions as a read offset, and with weights that need DMA the convolutions run as several OFM depth slices"""
+    import compiles
+    rng = random.Random("c10-split/%s" % vlib.seed())
+    jobs = []
+    accs = compiles.U55 + compiles.U65
+    for i in range(8 if tier == "quick" else 120):
+        args = ["--accelerator-config", "ethos-u55-128" if i % 2 == 0 else accs[i % len(accs)]]
+        if i % 4 == 3:
+            args += ["--optimise", rng.choice(["Size", "Performance"])]
+        jobs.append({"family": "split_conv:" + ("depth" if i % 2 == 0 else "width"), "seed": "c10split-%d-%d" % (vlib.seed(), i),
+                     "args": args, "capture": True})
     return jobs
 
 
@@ -789,6 +816,67 @@ def _run(tier, res, b):
         if m is not None and m != r:
             note_diff("create_padding", c, m, r)
 
+    # ---------------------------------------------------------------- 4b. the channel axis: read offsets x OFM depth slices
+    # (oracle on the implementation: the IFM channel range of every depth slice is the one the operator needs)
+    tcases, tmeta = [], []
+    for bt in (BT_CONV, BT_VP, BT_RS, BT_DW, BT_POOL):
+        for (so, ss, full) in ((None, None, [1, 6, 6, 48]),                       # no read offset
+                               ([0, 0, 0, 16], [1, 6, 6, 16], [1, 6, 6, 48]),    # split along depth, second part
+                               ([0, 0, 0, 0], [1, 6, 6, 16], [1, 6, 6, 48]),     # split along depth, first part
+                               ([0, 0, 0, 32], [1, 6, 6, 16], [1, 6, 6, 48]),    # split along depth, last part
+                               ([0, 0, 6, 0], [1, 6, 6, 32], [1, 6, 12, 32]),    # split along width, second part
+                               ([0, 2, 0, 0], [1, 4, 6, 32], [1, 6, 6, 32])):    # split along height (no padding, stride 1)
+            rd = ss[3] if ss else None
+            ofm_d = 64 if bt in (BT_CONV, BT_VP, BT_RS) else (rd if rd is not None else full[3])
+            for woff_c in (0, 8):
+                for (c0, c1) in ((0, ofm_d), (0, 16), (16, 32), (16, ofm_d), (32, 48), (48, 64), (8, 24)):
+                    if c1 > ofm_d or c0 >= c1:
+                        continue
+                    oh, ow = (ss or full)[1], (ss or full)[2]
+                    tcases.append([0, 0, 0, c0 + woff_c, 1, oh, ow, c1 + woff_c, 1, 1, 1, 0, 0, 0, 0] + full + [bt, 0, 0, 0, woff_c, 1] +
+                                  ([1] + so + ss if so else [0] * 9) + [1, 0])
+                    tmeta.append((bt, so, ss, full, woff_c, c0, c1))
+    for _ in range(200 if tier == "quick" else 4000):
+        bt = rng.choice([BT_CONV, BT_CONV, BT_VP, BT_RS, BT_DW, BT_POOL])
+        D = rng.choice([16, 32, 48, 64, 96])
+        hsp = rng.random() < 0.7
+        rd = rng.choice([8, 16, 32]) if hsp else None
+        if hsp and rd > D:
+            rd = D
+        offc = rng.randrange(0, (D - rd) // 8 + 1) * 8 if hsp else 0
+        H, W = rng.randrange(1, 9), rng.randrange(1, 9)
+        offw = rng.choice([0, 0, rng.randrange(0, 4)]) if hsp else 0
+        full = [1, H, W + offw, D]
+        so, ss = ([0, 0, offw, offc], [1, H, W, rd]) if hsp else (None, None)
+        ofm_d = rng.choice([16, 32, 64, 128]) if bt in (BT_CONV, BT_VP, BT_RS) else (rd if hsp else D)
+        c0 = rng.randrange(0, ofm_d // 8) * 8
+        c1 = rng.randrange(c0 // 8 + 1, ofm_d // 8 + 1) * 8
+        woff_c = rng.choice([0, 0, 16])
+        tcases.append([0, 0, 0, c0 + woff_c, 1, H, W, c1 + woff_c, 1, 1, 1, 0, 0, 0, 0] + full + [bt, 0, 0, 0, woff_c, 1] +
+                      ([1] + so + ss if so else [0] * 9) + [1, 0])
+        tmeta.append((bt, so, ss, full, woff_c, c0, c1))
+    treal = [real_transform(c) for c in tcases]
+    for c, m, r in zip(tcases, mrun("transform", tcases), treal):
+        ncorr["transform(channels: read offsets x depth slices)"] += 1
+        if m is not None and m != r:
+            note_diff("Box.transform_with_strides_and_skirt", c, m, r)
+    for c, r, (bt, so, ss, full, woff_c, c0, c1) in zip(tcases, treal, tmeta):
+        dot = bt in (BT_CONV, BT_VP, BT_RS)
+        want = expected_ifm_channels(dot, c0 + woff_c, c1 + woff_c, woff_c, so[3] if so else 0, ss[3] if ss else None, full[3])
+        got = (r[4], r[8]) if r[0] == 1 else "Box assertion (start > end)"
+        evals += 1
+        nontrivial.add(("channels", bt, tuple(so) if so else None, woff_c, c0, c1))
+        if got != want:
+            finding({"kind": "ifm_channel_range"},
+                    dict(block_type=bt, sums_over_ifm_depth=dot, ifm_shape=full, read_offset=so, read_shape=ss, write_offset_depth=woff_c,
+                         ofm_channels=[c0 + woff_c, c1 + woff_c], ifm_channels_handed=list(got) if isinstance(got, tuple) else got,
+                         ifm_channels_needed=list(want), transform_arguments=c),
+                    "depth slice OFM channels [%d,%d) of a%s operator reading %s: the transform hands IFM channels %s, the operator needs [%d,%d)" % (
+                        c0 + woff_c, c1 + woff_c, " depth-summing (convolution-like)" if dot else " channel-wise",
+                        "the window offset %r shape %r of a tensor %r (split/slice folded into it)" % (so, ss, full) if so else "its whole IFM %r" % full,
+                        "[%d,%d)" % got if isinstance(got, tuple) else got, want[0], want[1]),
+                    prio=0 if (dot and so and so[3] and c0 and isinstance(got, tuple)) else 1 if (c0 and isinstance(got, tuple)) else 3)
+
     lap('width_random')
     # ---------------------------------------------------------------- 5. nearest-neighbour upscaling (oracle on the implementation)
     for H in range(1, (7 if tier == "quick" else 11)):
@@ -1062,9 +1150,9 @@ def _run(tier, res, b):
     lap('generator')
     # ---------------------------------------------------------------- 8. D2: stripe groups of every captured stream
     import compiles
-    d2 = compiles.run_all(c10_corpus_jobs() + compiles.corpus_jobs() + upscale_jobs(tier) +
+    d2 = compiles.run_all(c10_corpus_jobs() + compiles.corpus_jobs() + split_conv_jobs(tier) + upscale_jobs(tier) +
                           compiles.plan(FAMS, 64 if tier == "quick" else 1600, vlib.seed(), tag="d2", capture=True))
-    programs = passes_checked = stripes_checked = rolling_checked = 0
+    programs = passes_checked = stripes_checked = rolling_checked = channels_checked = 0
     vcases, vwant = [], []
     outside = collections.Counter()
     d2_samples = []
@@ -1129,6 +1217,30 @@ def _run(tier, res, b):
                 ob = cmd["ofm_box"]
                 kern, pad = api.get("kernel"), api.get("padding")
                 chk = None
+                # the channel axis of every stripe / depth slice
+                bt_ = cmd["block_type"]
+                if len(cmd["ifm_box"]["start"]) == 4 and len(ob["start"]) == 4 and cmd["ifm_shapes"] and \
+                        bt_ in ("ConvolutionMxN", "VectorProduct", "ReduceSum", "ConvolutionDepthWise", "Pooling"):
+                    dot = bt_ in ("ConvolutionMxN", "VectorProduct", "ReduceSum")
+                    roff_, rshape_ = cmd["read_offsets"][0], cmd["read_shapes"][0]
+                    woff_ = cmd["write_offset"] or [0, 0, 0, 0]
+                    ifm_d = cmd["ifm_shapes"][0][3]
+                    oshape_d = (cmd.get("write_shape") or cmd["ofm_shapes"][0])[3]
+                    rd_ = rshape_[3] if (roff_ and rshape_) else None
+                    if dot or oshape_d == (rd_ if rd_ is not None else ifm_d):     # channel-wise operators: same depth in and out
+                        want = expected_ifm_channels(dot, ob["start"][3], ob["end"][3], woff_[3], roff_[3] if roff_ else 0, rd_, ifm_d)
+                        got = (cmd["ifm_box"]["start"][3], cmd["ifm_box"]["end"][3])
+                        channels_checked += 1
+                        evals += 1
+                        if got != want:
+                            finding({"kind": "ifm_channel_range"},
+                                    {"net": r.get("net_name"), "seed": r["job"]["seed"], "args": r["job"]["args"], "pass": cmd["pass"],
+                                     "block_type": bt_, "ofm_box": ob, "ifm_box": cmd["ifm_box"], "read_offset": roff_, "read_shape": rshape_,
+                                     "write_offset": cmd["write_offset"], "ifm_shape": cmd["ifm_shapes"][0],
+                                     "ifm_channels_handed": list(got), "ifm_channels_needed": list(want)},
+                                    "compiled network %s pass %s (%s): depth slice OFM channels [%d,%d) is handed IFM channels [%d,%d), the operator "
+                                    "needs [%d,%d) (read offset %r, read shape %r)" % (r.get("net_name"), cmd["pass"], bt_, ob["start"][3], ob["end"][3],
+                                                                                      got[0], got[1], want[0], want[1], roff_, rshape_))
                 if (cmd["block_type"] in ("ConvolutionMxN", "ConvolutionDepthWise", "Pooling") and kern and pad and len(cmd["ifm_box"]["start"]) == 4
                         and cmd.get("padding_type") != "TILE"):
                     rmode = {"NONE": 0, "NEAREST": 1, "TRANSPOSE": 2}[api["ifm_upscale"]]
@@ -1214,7 +1326,7 @@ def _run(tier, res, b):
                 "compiled passes executed as more than one stripe",
         "correspondence_cases": dict(ncorr), "model_vs_impl_differences": {k_: v_ for k_, v_ in diffs.items()},
         "samples": samples + d2_samples,
-        "programs": programs, "passes_checked": passes_checked, "stripes_checked": stripes_checked, "rolling_buffer_reads_checked": rolling_checked,
+        "programs": programs, "passes_checked": passes_checked, "stripes_checked": stripes_checked, "stripe_channel_ranges_checked": channels_checked, "rolling_buffer_reads_checked": rolling_checked,
         "generator_schedules": len(gen_specs), "real_generator_exceptions": gen_exceptions[:3], "cascades_with_overrun": overruns,
         "cascaded_producers_with_unread_tail_rows_not_produced": tail_gaps, "outside_model": dict(outside),
         "disagreements_checked": len(findings), "oracle_rejections_by_kind": dict(seen_kinds),
